@@ -867,6 +867,14 @@ pub fn run_part(id: &str, part: &Part, seed: u64, deciding_total: bool) -> PartO
         }
     }
     out.nontrivial = all_nt.len();
+    // Cases that ran out of their step budget are discarded, never judged. On the unchanged tree
+    // that does not happen at all; if more than 1 in 200 cases end that way something spins (an
+    // operation that waits for another thread outside a solo window), and "held" would claim too
+    // much: the result is inconclusive.
+    if out.merged.discarded_budget * 200 > out.merged.evaluations.max(1) {
+        eprintln!("inconclusive: {} of {} cases of {} exhausted their step budget and were discarded", out.merged.discarded_budget, out.merged.evaluations, part.name);
+        out.inconclusive = true;
+    }
     for (id_, n) in &out.merged.known {
         println!("KNOWN-FINDING: {} (signature {} hit {} times, excluded from the search)", out.merged.known_what.get(id_).cloned().unwrap_or_default(), id_, n);
     }
